@@ -302,6 +302,69 @@ def b2_static_run(carve):
     return _enum_outcome("every @impl function of every backend module returns a value (or raises) on every path", n, bad)
 
 
+def b6_worker(rotation):
+    """(fresh process) one-verb pipelines of every operator on polars and every SQL dialect, the backends visited in a rotated
+    order per operator; returns {op|sig|backend: outcome class}"""
+    import polars as pl
+
+    out = {}
+    with warnings.catch_warnings():
+        warnings.simplefilter("ignore")
+        mk, types = dialect_tables()
+        tables = {d: f("t") for d, f in mk.items()}
+        tables["polars"] = pdt.Table(pl.DataFrame(schema={c: ty.to_polars() for c, ty in types.items()}), name="t")
+        order = list(tables)
+        for i, (opname, op) in enumerate(H.ALL_OPS.items()):
+            if isinstance(op, pdt._internal.ops.ops.markers.Marker):
+                continue
+            sigs = [sg for sg in itertools.islice(sig_universe(op), 0, 40) if not any(TU.is_null_typed(x) for x in sg)][:3]
+            k = (rotation + i) % len(order)
+            for d in order[k:] + order[:k]:
+                t = tables[d]
+                for sig in sigs:
+                    args = build_args(t, sig, types)
+                    if args is None:
+                        continue
+                    kw = {"arrange": [t.i64]} if op.ftype == H.Ftype.WINDOW else {}
+                    try:
+                        e = H.ColFn(op, *args, **kw)
+                        x = (t >> pdt.group_by(t.i8) >> pdt.summarize(r=e)) if op.ftype == H.Ftype.AGGREGATE else (t >> pdt.mutate(r=e))
+                        if d == "polars":
+                            x >> pdt.export(pdt.Polars(lazy=True))
+                        else:
+                            x >> pdt.build_query()
+                        res = "ok"
+                    except Exception as ex:  # noqa: BLE001
+                        res = f"{type(ex).__name__}: {str(ex)[:80]}"
+                    out[f"{opname}{_fmt(sig)} on {d}"] = res
+    return out
+
+
+def b6_run(carve):
+    """whether an expression compiles on a backend does not depend on which other backends compiled expressions before in the
+    same process (operator implementations are looked up per backend): four fresh processes visit the backends in rotated orders"""
+    import json
+    import os
+    import subprocess
+    import sys
+
+    results = []
+    root = os.path.dirname(os.path.dirname(os.path.dirname(os.path.abspath(__file__))))
+    for rot in range(4):
+        pr = subprocess.run([sys.executable, "-c", f"import json; from pdtv.props import c19; print('B6JSON' + json.dumps(c19.b6_worker({rot})))"], capture_output=True, text=True, cwd=root, timeout=900)
+        line = next((ln for ln in pr.stdout.splitlines() if ln.startswith("B6JSON")), None)
+        if line is None:
+            return Outcome("error", detail=f"B6 worker {rot} failed: {pr.stderr[-400:]}")
+        results.append(json.loads(line[6:]))
+    n, bad = 0, []
+    for key in results[0]:
+        n += 1
+        seen = {r.get(key) for r in results}
+        if len(seen) > 1:
+            bad.append(f"{key}: outcome depends on the order in which the backends were used: {sorted(map(str, seen))}")
+    return _enum_outcome("the outcome of compiling an operator on a backend is the same whatever was compiled before in the process", n, bad)
+
+
 def obligations(tier):
     fi = H.fn_info
     SI = H.sql_backend.SqlImpl
@@ -317,6 +380,8 @@ def obligations(tier):
     for d in extra:
         obs.append(Obligation(f"C19/B2/ops/{d}", "B1+B2+B5", f"operator x signature totality on {d}", make_b2_dialect(d), functions=base + extra[d], carveouts={"duration_literal": "timedelta literals", "null_const_param": "None passed to a const parameter", "str_to_datetime_literal": "str.to_datetime / to_date of a string literal on SQLite"}, bounded="one representative type per family (plain / const / null literal); arity <= 3 fully, larger arities over the operator's core types"))
         obs.append(Obligation(f"C19/B3/pipelines/{d}", "B3+B4", f"pipeline family on {d}", make_b3(d), functions=base + extra[d], bounded=f"{len(PIPELINES)} pipelines"))
+    obs.append(Obligation("C19/B6/backend_order", "B6", "compiling on one backend does not change what compiles on another (fresh processes, rotated backend orders)", b6_run, functions=[fi(pdt._internal.backend.impl_store.ImplStore.get_impl), fi(H.table_impl_mod.TableImpl.get_impl)],
+                          bounded="up to 3 column-only signatures per operator x polars + 3 dialects x 4 rotations"))
     return obs
 
 
